@@ -1,5 +1,5 @@
 /-
-  Model of Product2 / Product3 (src/mul/non_labeled.rs:75-119, src/mul/labeled.rs:74-125)
+  Model of Product2 / Product3 (src/mul/non_labeled.rs:75-139, src/mul/labeled.rs:74-143)
   and MergeJointConditions2 (src/mul.rs:1013-1061).
   Joint domains are flattened row-major: cell (i,j) of an n0×n1 table is entry i*n1+j.
 -/
@@ -41,7 +41,7 @@ def prodCand2 {n0 n1} (w0 : Opinion α n0) (w1 : Opinion α n1) (d : Fin n0 × F
   let r1 := w1.b[d.2] / w1.a[d.2]
   w0.u * (r1 + w1.u) + r0 * w1.u
 
-/-- three factors (src/mul/non_labeled.rs:110-115, src/mul/labeled.rs:116-122) -/
+/-- three factors (src/mul/non_labeled.rs:119-124, src/mul/labeled.rs:124-130) -/
 def prodCand3 {n0 n1 n2} (w0 : Opinion α n0) (w1 : Opinion α n1) (w2 : Opinion α n2)
     (d : Fin n0 × Fin n1 × Fin n2) : α :=
   let r0 := w0.b[d.1] / w0.a[d.1]
@@ -52,14 +52,18 @@ def prodCand3 {n0 n1 n2} (w0 : Opinion α n0) (w1 : Opinion α n1) (w2 : Opinion
 /-- the part shared by both product implementations: (b, u, a) before validation / normalisation.
     Cells of zero base rate are skipped (`filter(a > 0)`, applied before any quotient `b / a` is used); an empty
     filter makes `reduce(..).unwrap()` panic in Rust, the model returns NaN there (not reachable when the base
-    rates are distributions). -/
+    rates are distributions).  Every joint mass `p[d] - a[d] * u` is clamped at zero (repair b817f74: the mass of the
+    minimising cell is exactly `b0*b1`, often 0, and its two terms round differently; the un-clamped text is kept as
+    `Pinned.product2NoClamp` / `product3NoClamp`). -/
 def product2Raw {n0 n1} (w0 : Opinion α n0) (w1 : Opinion α n1) : Opinion α (n0 * n1) :=
   let p := outer2 w0.projection w1.projection
   let a := outer2 w0.a w1.a
   let u := Tab.reduceL Scalar.min
     (((List.finRange (n0 * n1)).filter fun k => Scalar.gt a[k] Scalar.zero).map fun k => prodCand2 w0 w1 (idx2 k))
     (Tab.nanOf α)
-  let b : Tab α (n0 * n1) := Vector.ofFn fun k => p[k] - a[k] * u
+  let b : Tab α (n0 * n1) := Vector.ofFn fun k =>
+    let b := p[k] - a[k] * u
+    if Scalar.lt b Scalar.zero then Scalar.zero else b
   ⟨b, u, a⟩
 
 def product3Raw {n0 n1 n2} (w0 : Opinion α n0) (w1 : Opinion α n1) (w2 : Opinion α n2) :
@@ -70,7 +74,9 @@ def product3Raw {n0 n1 n2} (w0 : Opinion α n0) (w1 : Opinion α n1) (w2 : Opini
     (((List.finRange (n0 * n1 * n2)).filter fun k => Scalar.gt a[k] Scalar.zero).map fun k =>
       prodCand3 w0 w1 w2 (idx3 k))
     (Tab.nanOf α)
-  let b : Tab α (n0 * n1 * n2) := Vector.ofFn fun k => p[k] - a[k] * u
+  let b : Tab α (n0 * n1 * n2) := Vector.ofFn fun k =>
+    let b := p[k] - a[k] * u
+    if Scalar.lt b Scalar.zero then Scalar.zero else b
   ⟨b, u, a⟩
 
 /-- unlabelled family: the raw result is validated by `Opinion::new` (error ≙ panic) -/
